@@ -9,12 +9,14 @@ LEVEL = lambda text, ref: {"category": "model_checking", "text": text, "design_r
 claimed = {
  "C01": ("four sequential kernels on the backup->restore path are decided for all inputs within small bounds: ranged-read start points, blob framing and repository-file framing through the real DecryptBackend (model key, zstd/hash stubs); the multi-threaded pipeline itself is outside",
          "bounds per harness in evidence; ideal-AEAD model key, invertible zstd model, checksum hash model; archiver/packer threads, file system, metadata are outside the claim", "DESIGN 4/C01"),
- "C06": ("one step of the real rabin ChunkIter from an arbitrary valid iterator state (inductive: every chunk of every stream) is compared with a table-free polynomial-remainder reference; fixed-size chunker partition; accepted parameter triples never panic",
-         "default polynomial, (64,64,72) parameters, <= 12 look-ahead bytes, <= 2 short reads per step; std read_to_end replaced by its contract model; longer look-ahead fills and other polynomials outside", "DESIGN 4/C06"),
+ "C05": ("per-pack kernel only: if check_pack returns Ok without recording a finding then the file hashes to the indexed pack id, the trailer length and the decrypted trailer (independent reference decoder) equal what the index records, and every blob read where the index places it decrypts to content whose hash is its id; with a key that rejects, check_pack never comes back clean",
+         "one pack shape (two uncompressed 34-byte blobs, 178 symbolic bytes); AEAD verdict is a harness constant; checksum model for SHA-256; binrw decoders replaced by a reference decoder; which packs are read, the tree walk and the index-vs-listing comparison (threads, B-trees) are outside", "DESIGN 11.3"),
+ "C06": ("one step of the real rabin ChunkIter::next from a mid-stream iterator state (inductive over chunks) is decided for all stream bytes within small shapes: no panic, chunk non-empty / within max / at least min unless the stream ends / equal to the next unread bytes, remainder preserved; relational: the cut does not depend on the look-ahead split nor on the hash state left by the previous chunk (2-byte-window instance); degenerate parameter triples are refused; fixed-size chunker partition under arbitrary short reads",
+         "five concrete parameter triples with concrete look-ahead/stream lengths (all bytes symbolic); std read_to_end replaced by its contract model; equality of the rolling fingerprint with the mathematical Rabin fingerprint and the production 64-byte-window relational harnesses are experimental (do not finish) and outside the claim", "DESIGN 4/C06, 11.3"),
  "C04": ("framing layer only: every byte string written through the real DecryptBackend is key.encrypt_data output and its id is the hash of exactly those bytes; a decryption failure or a wrong recorded length is an error on every read path (no fallback to raw bytes); cryptographic strength is not decidable by a bounded solver",
          "model keys (format-checking AEAD; harness-controlled MAC verdict); zstd/hash stubs; tamper detection with a content-sensitive model MAC is experimental (> 30 GB); AES/Poly1305/scrypt, keys, passwords outside", "DESIGN 4/C04, 11.3"),
- "C08": ("accounting and size logic around the binrw (de)serialisation: HeaderEntry <-> IndexBlob mapping is lossless, header size / pack size formulas, BasicPacker offsets/lengths/duplicate skipping/take_data",
-         "binrw byte encoding stubbed; PackHeader::from_file, repair_index and the threaded pack writer outside", "DESIGN 4/C08, 11.3"),
+ "C08": ("accounting and size logic around the binrw (de)serialisation: HeaderEntry <-> IndexBlob mapping is lossless, header size / pack size formulas, BasicPacker offsets/lengths/duplicate skipping; PackHeader::from_file hands exactly the decrypted trailer to the decoder for every size hint",
+         "binrw byte encoding stubbed; PackHeader::from_file's read arithmetic is covered for one well-formed pack and seven size hints; repair_index and the threaded pack writer outside", "DESIGN 4/C08, 11.3"),
  "C09": ("the eight period predicates agree with the Gregorian / ISO-8601 specification for any two snapshots in 2014..2021; one step of KeepOptions::matches from any counter state keeps exactly the candidates with a non-zero counter and decrements counters correctly (inductive step of the counting rule)",
          "jiff accessors stubbed by a symbolic civil table (jiff trusted); keep-within, tags, delete marks, apply()'s sort outside (experimental harnesses do not finish)", "DESIGN 4/C09, 11.3"),
  "C11": ("Parent::process for a file node against a parent tree: Matched only for equal type/size/mtime/(ctime) with all blobs indexed, content taken from the parent; NotFound/NotMatched otherwise",
@@ -40,7 +42,6 @@ not_applicable = {
  "C20": "LocalBackend/opendal are sequences of file-system calls; the property is about OS rename/listing semantics, not encodable",
 }
 pending = {}
-not_applicable["C05"] = "check_pack needs a symbolic decrypt outcome over symbolic pack bytes (merging the Ok/Err worlds of decrypt exhausts 30 GB, measured on the C04 tamper harness) plus binrw stubs; check_trees / check_packs_list are thread and B-tree code (Kani ICE / no result)"
 not_applicable["C12"] = "copy/merge/rewrite/repair kernels move Node/Tree values through String- and B-tree-heavy code (merge_nodes, RepairState) or live in packer threads; not encodable within the budget after C11 needed 3.5 min for a single node"
 checks = []
 for pid, (text, note, ref) in sorted(claimed.items()):
